@@ -83,6 +83,16 @@ THEOREMS = [
     "Lena.C10.render_passes_unless_filetype_is_csv",
     "Lena.C10.pdf_passes_unless_filetype_is_tex",
     "Lena.C10.shared_unselected_untouched",
+    # 4f. (seed round I/J) the bin `select_bins` is shown — get_example_bin(hist) — is the WHOLE bin with zero index on
+    # every axis, also when it is a list: histograms whose bins hold containers are selected by the class of the
+    # container only
+    "Lena.C10.exampleOfHist_wellShaped",
+    "Lena.C10.iterateBinsStepE_eq",
+    "Lena.C10.mapBinsStepE_eq",
+    "Lena.C10.iterateBinsE_passes",
+    "Lena.C10.mapBinsE_passes",
+    "Lena.C10.iterateBins_container_bins_pass",
+    "Lena.C10.mapBins_container_bins_pass",
 ]
 # instances, unfoldings, glue and free theorems: audited, not counted as proof obligations of the property
 AUX_THEOREMS = [
@@ -107,6 +117,8 @@ AUX_THEOREMS = [
     "Lena.C10.toCSV_ctxLocal", "Lena.C10.write_ctxLocal", "Lena.C10.render_ctxLocal", "Lena.C10.png_ctxLocal",
     "Lena.C10.histToGraph_ctxLocal", "Lena.C10.iterateBins_ctxLocal", "Lena.C10.mapBins_ctxLocal",
     "Lena.C10.runIf_ctxLocal", "Lena.C10.write_shared_interleave", "Lena.C10.Heap.get_set",
+    "Lena.C10.kindOfPyV_binVal", "Lena.C10.getBinOnIndex_nestBins", "Lena.C10.exampleOfArray_nestBins",
+    "Lena.C10.exampleOfArray_eq_exampleOfHist_of_not_list", "Lena.C10.arrayDescent_differs",
 ]
 TRUSTED = [
     "Lean 4.33.0 kernel; axioms limited to propext, Classical.choice, Quot.sound (audited by #print axioms on every run)",
@@ -169,6 +181,16 @@ ASSUMPTIONS = [
     "adversary candidates judged (notes/adversary_C10.md): 1 (MapGroup reads unselected generators), 2 (PDFToPNG "
     "selects by `contains`), 3 (HistToGraph touches the bins before the to_graph test), 4 (LaTeXToPDF yields failed "
     "conversions), 5 (RenderLaTeX creates a byte-code cache directory) are all inside the statement and quantifier",
+    "seed C10-J (IterateBins tests get_example_bin(data.bins): the descent into a list-valued bin 0 raises IndexError "
+    "on / takes apart a histogram it does not select) is inside the statement and quantifier (notes/adversary_C10.md, "
+    "seed round I/J)",
+    "histograms whose bins hold containers (lists — empty, of numbers, of histograms, of pairs, nested — tuples, "
+    "dictionaries; what SplitIntoBins(StoreFilled(), …) makes) are generated as UNSELECTED values only (for every "
+    "element; sorted by the class of the container for IterateBins / MapBins, so tuples are left out where "
+    "select_bins names tuple, and all of them for MapBins without select_bins).  As SELECTED values they are outside "
+    "the modelled fragment: `cell` gives a placeholder for them and MapBins' md_map would descend into lists in bins.  "
+    "In the model all bins of a histogram are alike (one PyV per kind); the Python objects differ per bin (for "
+    "list:empty bin 0 is empty and the others hold entries)",
     "`Exc.unmodelled`: the model declines; a generated case that reaches it is reported as a disagreement, so the "
     "theorems speak about lena only for the cases the correspondence accepts",
 ]
@@ -179,7 +201,12 @@ RULE = ("per element configuration (the 10 elements of the statement plus GroupP
         "LaTeXToPDF / PDFToPNG once more with real converter processes): lists A (values the element's documented rule selects, error-raising ones included) and B (values "
         "it does not select: numbers, strings, None, floats, tuples, lists, bytes, bare dicts, foreign objects, pairs "
         "with unrelated context, pairs with disabling context such as output.write/to_csv False, histograms of the "
-        "wrong kind, and unselected values whose context carries the settings the element reads for selected ones: "
+        "wrong kind — since seed round I/J also histograms whose BINS HOLD CONTAINERS: a list per bin (empty in bin 0, "
+        "of numbers, of histograms, of (data, context) pairs, nested, nested with an empty first list), a tuple "
+        "(empty, starting with a histogram), a dictionary (also with a histogram under the key 0), 1 to 3 dimensions, "
+        "bare and with context, for IterateBins / MapBins in every B palette and switched off through the context "
+        "for every other element; for IterateBins / MapBins the bin get_example_bin(hist) returns is compared with "
+        "the model's exampleOfHist on every histogram of the flow — and unselected values whose context carries the settings the element reads for selected ones: "
         "output.duplicate_last_bin/to_csv/write/filename/dirname/fileext/filetype/template/changed; since the "
         "adversary round also: one-shot iterables — a generator, a list iterator, an iterator object, bare and in "
         "pairs with enabling contexts — which must still hold all their items afterwards; values with (data, "
@@ -304,6 +331,31 @@ def _canon_str(s, root):
     return s.replace(root, "$R")
 
 
+# bins that hold CONTAINERS (seed round I/J): "<class>:<what stands at index 0>" — a list / tuple / dictionary per bin.
+# `SplitIntoBins(StoreFilled(), …)` makes histograms of lists (an empty list for a bin without entries); MapBins
+# documents `select_bins=[vector3, list]`.  A container in a bin is the bin: no element may look inside it to decide.
+CONT_BINS = ("list:empty", "list:num", "list:hist", "list:pair", "list:list", "list:elist",
+             "tuple:empty", "tuple:hist", "dict:empty", "dict:hist")
+
+
+def _cont_items(first, i):
+    import lena.structures
+    inner = lambda k: lena.structures.histogram([0, 1], [k])
+    if first == "empty":
+        return []
+    if first == "num":
+        return [i, i + 1]
+    if first == "hist":
+        return [inner(i), inner(i + 1)]
+    if first == "pair":
+        return [(i, {"a": 1})]
+    if first == "list":
+        return [[i], []]
+    if first == "elist":
+        return [[], i]
+    raise ValueError(first)
+
+
 def _cell(kind, hid, i):
     import lena.structures
     if kind == "num":
@@ -312,7 +364,53 @@ def _cell(kind, hid, i):
         return lena.structures.histogram([0, 1], [i])
     if kind == "vec":
         return (i, 0, 0)
-    return (i, {"a": 1})
+    if kind == "pair":
+        return (i, {"a": 1})
+    cls, first = kind.split(":")
+    items = _cont_items(first, i)
+    if cls == "list":
+        # "list:empty": the first bin has no entries, the others have (what StoreFilled leaves)
+        return items if items or i == 0 else [i] * i
+    if cls == "tuple":
+        return tuple(items)
+    if cls == "dict":
+        return {0: items[0], "h": i} if items else {"h": i}       # `first`: what stands under the key 0
+    raise ValueError(kind)
+
+
+def kind_of_bin(o):
+    """the kind (vocabulary of `_cell`) of an object found in a bin — for comparing `get_example_bin` with the model"""
+    import lena.structures
+    hist = lena.structures.histogram
+
+    def first_of(items):
+        if not items:
+            return "empty"
+        x = items[0]
+        if isinstance(x, hist):
+            return "hist"
+        if isinstance(x, tuple) and len(x) == 2 and isinstance(x[1], dict):
+            return "pair"
+        if isinstance(x, list):
+            return "list" if x else "elist"
+        return "num"
+    if isinstance(o, bool):
+        return "?bool"
+    if isinstance(o, int):
+        return "num"
+    if isinstance(o, hist):
+        return "hist"
+    if isinstance(o, list):
+        return "list:" + first_of(o)
+    if isinstance(o, tuple):
+        if len(o) == 2 and isinstance(o[1], dict):
+            return "pair"
+        if len(o) == 3 and all(isinstance(x, int) for x in o):
+            return "vec"
+        return "tuple:" + first_of(o)
+    if isinstance(o, dict):
+        return "dict:" + first_of([o[0]] if 0 in o else [])
+    return "?" + type(o).__name__
 
 
 def _nest(shape, it):
@@ -532,7 +630,14 @@ def ref_selected(el, spec):
     if k == "h2g":
         return d["k"] == "hist" and bool(_get(c, "histogram.to_graph", True))
     if k in ("iterbins", "mapbins"):
-        return d["k"] == "hist" and d["bin"] in el["bins"]
+        # `select_bins` is given classes: the histogram is selected when its bins (the data part of a bin: the bin
+        # itself, be it a list, a tuple or a dictionary — never what is inside) are instances of one of them;
+        # MapBins without `select_bins` takes every histogram
+        if d["k"] != "hist":
+            return False
+        if k == "mapbins" and el.get("default"):
+            return True
+        return _BIN_CLASSES[d["bin"]] in {_BIN_CLASSES[b] for b in el["bins"]}
     if k == "runif":
         return eval_sel(el["sel"], spec)
     if k == "mapgroup":
@@ -755,6 +860,7 @@ def _make_selector(sel):
 
 
 _BIN_CLASSES = {"num": "int", "pair": "int", "hist": "histogram", "vec": "tuple"}
+_BIN_CLASSES.update({b: b.split(":")[0] for b in CONT_BINS})
 
 
 _PDFTOPPM_STUB = """#!/bin/sh
@@ -1176,6 +1282,19 @@ def _apply_alias(flow, alias):
     return flow
 
 
+def _example_kind(v):
+    """the kind of `get_example_bin(hist)` for a flow value that holds a histogram (None for other values)"""
+    import lena.flow
+    import lena.structures
+    data = lena.flow.get_data(v)
+    if not isinstance(data, lena.structures.histogram):
+        return None
+    try:
+        return kind_of_bin(lena.structures.get_example_bin(data))
+    except Exception as e:
+        return "err:" + exc_name(e)
+
+
 def _run_flow(el, element, clock, root, specs, idxs, is_b, alias, earlier):
     """one run of the (possibly already used) element object over the values built from `specs`"""
     import contextlib
@@ -1184,6 +1303,8 @@ def _run_flow(el, element, clock, root, specs, idxs, is_b, alias, earlier):
     has_ctx = lena.flow.functions._has_context
     flow = _apply_alias([build_value(s, root) for s in specs], alias)
     before = [enc_deep(v, root) for v in flow]
+    # IterateBins / MapBins: the bin `select_bins` is shown (the public lena.structures.get_example_bin), for the model
+    exbins = [_example_kind(v) for v in flow] if el["k"] in ("iterbins", "mapbins") else None
     ids, cids = {}, {}
     for i, v in enumerate(flow):
         ids.setdefault(id(v), i)
@@ -1288,7 +1409,7 @@ def _run_flow(el, element, clock, root, specs, idxs, is_b, alias, earlier):
         if has_ctx(v):
             earlier["ctx"].setdefault(id(v[1]), 2 * idxs[i] + 1)
     earlier["alive"].append(flow)
-    return {"blocks": blocks, "tail": tail, "err": err, "fs": snapshot(root), "b": b_report,
+    return {"blocks": blocks, "tail": tail, "err": err, "fs": snapshot(root), "b": b_report, "exbins": exbins,
             "produced": produced, "deep_blocks": prod_blocks,
             "deep_tail": [enc_deep(o, root) for o in outs[marks[len(flow)]:]] if exhausted else [],
             "npulled": pulled}
@@ -1489,6 +1610,13 @@ def compare(case, res, replies):
             return f"model: mergeBlocks differs from the blocks of the second run {m['run2']['blocks']}"
     if not is_pdf and m.get("ispattern") is False:
         return "model: IsPattern is false for the pattern of the case"
+    if m.get("exbin") is not None:
+        # IterateBins / MapBins: the example bin as the model computes it on the nested lists (`exampleOfHist`) is the
+        # bin the real get_example_bin returns, and the loop body that tests it (`…StepE`) is the transcribed one
+        if m["exbin"] != res["full"]["exbins"]:
+            return f"get_example_bin: model (exampleOfHist) {m['exbin']} vs lena {res['full']['exbins']}"
+        if not m["exE_ok"]:
+            return "model: the loop body with the example bin computed on the nested lists (…StepE) differs from the transcribed one"
     if m.get("seldoc") is not None and m["seldoc"] != ref_sel:
         return f"documented selection rule: the model's …Doc predicate {m['seldoc']} vs the harness's {ref_sel}"
     if not is_pdf:
@@ -1844,6 +1972,11 @@ def container_vals(ids):
         {"d": _hist(ids, 3, "pair"), "c": {"output": {"to_csv": False, "write": False}, "histogram": {"to_graph": False}}},
         {"d": _hist(ids, 3, "hist"), "c": {"histogram": {"to_graph": 0}, "output": {"to_csv": 0}, "n": n()}},
         {"d": {"k": "lookalike", "id": n()}, "c": {"output": {"to_csv": True}, "histogram": {"to_graph": True, "dim": 1}}},
+        # histograms whose bins hold containers (seed round I/J), switched off for the elements that act on histograms
+        {"d": _hist(ids, 1, "list:hist"), "c": {"output": {"to_csv": False}, "histogram": {"to_graph": False}}},
+        {"d": _hist(ids, 2, "list:empty"), "c": {"output": {"to_csv": 0, "write": False}, "histogram": {"to_graph": None}}},
+        {"d": _hist(ids, 3, "tuple:hist"), "c": {"histogram": {"to_graph": False}, "n": n()}},
+        {"d": _hist(ids, 1, "dict:hist"), "c": {"output": {"to_csv": False}, "histogram": {"to_graph": 0}, "variable": {"name": "x"}}},
     ]
 
 
@@ -2205,10 +2338,27 @@ def _configs(tier):
             ]
         return mk
 
+    def cont_hists(ids, rng):
+        """histograms whose bins hold containers (lists — also empty ones, lists of histograms, of pairs, nested —
+        tuples, dictionaries), 1 to 3 dimensions, bare and with context"""
+        n = ids.next
+        vals = []
+        for j, b in enumerate(CONT_BINS):
+            vals.append({"d": _hist(ids, 1, b)})
+            dim = 2 + j % 2
+            vals.append({"d": _hist(ids, dim, b), "c": rng.choice([
+                {"variable": {"name": "x"}, "n": n()}, {"n": n()}, {"variable": {"name": "y"}, "output": {"write": False}},
+                {"histogram": {"dim": dim}, "variable": None}])})
+        vals.append({"d": _hist(ids, 1, "list:empty", [3]), "c": {"variable": {"name": "x"}}})
+        vals.append({"d": _hist(ids, 1, "list:hist", [3]), "c": {"variable": {"name": "x"}}})
+        return vals
+
     def b_bins(kinds):
         others = [b for b in ("num", "hist", "vec", "pair") if b not in kinds]
         def mk(ids, rng):
-            return common_b(ids, rng) + hists(others)(ids, rng)
+            # (those of the container histograms the element's classes select — tuples under `tuple` — are sorted
+            # out by `ref_selected` in `with_settings`)
+            return common_b(ids, rng) + hists(others)(ids, rng) + [dict(v, _c=1) for v in cont_hists(ids, rng)]
         return mk
     out.append(({"k": "iterbins", "bins": ["hist"], "default": True}, {}, iter_errs(["hist"]), b_bins(["hist"])))
     out.append(({"k": "iterbins", "bins": ["num", "pair"]}, {}, iter_errs(["num", "pair"]), b_bins(["num", "pair"])))
@@ -2374,7 +2524,9 @@ def _configs(tier):
                 wide = wide + twin_vals(ids, el, mk_a(_Ids(), rng), rng)
                 # (`_x`: in the quick tier step 1 of gen_cases puts these before OR after a selected value, not both)
                 extra = extra + [dict(v, _x=1) for v in wide]
-            return mk_b(ids, rng) + [v for v in extra if not ref_selected(el, v)]
+            base = [{k: x for k, x in v.items() if k != "_c"} for v in mk_b(ids, rng)
+                    if not (v.get("_c") and ref_selected(el, v))]
+            return base + [v for v in extra if not ref_selected(el, v)]
         return b
     return [(el, fs, mk_a, with_settings(el, mk_a, mk_b)) for el, fs, mk_a, mk_b in out]
 
@@ -2640,7 +2792,7 @@ LEVEL_NOTE = ("Trusted: Lean kernel (+ propext, Classical.choice, Quot.sound), t
               "stubs and schedules, the stand-ins for user callables, the JSON protocol.  'Without touching the file "
               "system' is a theorem with content for Write, PDFToPNG, RunIf, MapGroup and LaTeXToPDF; for ToCSV, "
               "RenderLaTeX, HistToGraph, IterateBins, MapBins it rests on the oracle's directory snapshots.  "
-              "THEOREMS lists the 45 theorems that carry the property; instances, unfoldings and free theorems are in "
+              "THEOREMS lists the 52 theorems that carry the property; instances, unfoldings and free theorems are in "
               "AUX_THEOREMS.")
 TECHNIQUE = "Lean 4 proof over hand-written model + correspondence check over all interleavings of small flows"
 DESIGN_REF = "DESIGN.md section 3, C10"
